@@ -88,8 +88,12 @@ def locTargets (h : Hist) (ri : ReqIn) (x : Ex) : List Str :=
       let present := match h.reply ri.n c.k with
         | some rp => Header.has rp.resp.header l.hdr
         | none => false
-      if present && Spec.sameOrigin ri.req.scheme ri.req.host l.g.scheme l.g.host
-      then some (Spec.urlNormQ l.g.kScheme l.g.kHost l.g.kPath l.g.kQuery l.g.kForceQuery) else none
+      -- an opaque reference ("mailto:x") names no http(s) URI
+      if !l.g.kOpaq.isEmpty then none else
+      let (ts, th, tp, tq, tfq) := Spec.resolveRef ri.req.scheme ri.req.host ri.req.path ri.req.query ri.req.forceQuery
+        l.g.kScheme l.g.kHost l.g.kPath l.g.kQuery l.g.kForceQuery
+      if present && Spec.sameOrigin ri.req.scheme ri.req.host ts th
+      then some (Spec.urlNormQ ts th tp tq tfq) else none
 
 def monC07 (h : Hist) : Option String :=
   h.reqs.findSome? fun rm => do
